@@ -17,6 +17,7 @@
 #include <ksi/net_tcp.h>
 #include <ksi/net_ha.h>
 #include <ksi/publicationsfile.h>
+#include <ksi/verification_rule.h>
 #include <ksi/policy.h>
 #include <ksi/verification.h>
 #include <ksi/signature_builder.h>
@@ -336,6 +337,10 @@ int main(void) {
 			const KSI_Policy *pol = !strcmp(tok[1], "KEY") ? KSI_VERIFICATION_POLICY_KEY_BASED : !strcmp(tok[1], "CAL") ? KSI_VERIFICATION_POLICY_CALENDAR_BASED :
 				!strcmp(tok[1], "PUBFILE") ? KSI_VERIFICATION_POLICY_PUBLICATIONS_FILE_BASED : !strcmp(tok[1], "USERPUB") ? KSI_VERIFICATION_POLICY_USER_PUBLICATION_BASED :
 				!strcmp(tok[1], "GENERAL") ? KSI_VERIFICATION_POLICY_GENERAL : KSI_VERIFICATION_POLICY_INTERNAL;
+			/* RULECAL: a user-defined policy made of one public rule -- the calendar input hash against the aggregation root computed FROM THE GIVEN INPUT LEVEL */
+			static const KSI_Rule rulecal[] = { {KSI_RULE_TYPE_BASIC, KSI_VerificationRule_CalendarHashChainInputHashVerification}, {KSI_RULE_TYPE_BASIC, NULL} };
+			KSI_Policy *upol = NULL;
+			if (!strcmp(tok[1], "RULECAL") && KSI_Policy_create(ctx, rulecal, "rulecal", &upol) == KSI_OK) pol = upol;
 			if (tok[2][0] == '@') { sig = slots[atoi(tok[2] + 1)]; prc = sig != NULL ? KSI_OK : 0x30000; borrowed = 1; }
 			else prc = KSI_Signature_parseWithPolicy(ctx, sb, sl, KSI_VERIFICATION_POLICY_EMPTY, NULL, &sig);
 			free(sb);
@@ -357,7 +362,7 @@ int main(void) {
 				printf(" src=%s\n", (before == NULL || after == NULL) ? "err" : (al == bl && memcmp(before, after, al) == 0) ? "same" : "diff");
 				KSI_VerificationContext_clean(&vc);
 			}
-			KSI_free(before); KSI_free(after); KSI_PolicyVerificationResult_free(result); KSI_DataHash_free(doc); KSI_PublicationData_free(up); KSI_PublicationsFile_free(pf); if (!borrowed) KSI_Signature_free(sig);
+			KSI_free(before); KSI_free(after); KSI_PolicyVerificationResult_free(result); KSI_DataHash_free(doc); KSI_PublicationData_free(up); KSI_PublicationsFile_free(pf); if (!borrowed) KSI_Signature_free(sig); KSI_Policy_free(upol);
 		} else if (!strcmp(tok[0], "BSNEW")) {
 			/* block signer (C16): BSNEW <alg> <prevLeafHex|-> <ivHex|-> | BSADD <hashHex> <lvl> <clientIdHex|-> | BSCLOSE | BSRESET | BSSIG <i> | BSPREV */
 			int rc, k; KSI_DataHash *prev = NULL; KSI_OctetString *iv = NULL;
